@@ -114,7 +114,10 @@ AgeChoices == {NoMark, 0, IgnoreDelay, IgnoreDelay + 1, DeleteDelay + 1}
 BlockChoices == { [src |-> s, meta |-> m, age |-> a] : s \in SrcChoices, m \in BOOLEAN, a \in AgeChoices }
 RECURSIVE Seqs(_, _)
 Seqs(S, n) == IF n = 0 THEN {<<>>} ELSE LET p == Seqs(S, n - 1) IN p \cup { Append(s, x) : s \in { y \in p : Len(y) = n - 1 }, x \in S }
+(* all states of <= 2 blocks; states of up to CaseBlocks blocks over the age classes around the ignore delay *)
+SmallChoices == { b \in BlockChoices : b.age \in {NoMark, IgnoreDelay, IgnoreDelay + 1} }
+CaseStates == (Seqs(BlockChoices, IF CaseBlocks < 2 THEN CaseBlocks ELSE 2) \cup Seqs(SmallChoices, CaseBlocks)) \ {<<>>}
 CaseSeq == SetToSeq({ [blocks |-> [k \in DOMAIN s |-> [src |-> SetToSeq(s[k].src), meta |-> s[k].meta, age |-> s[k].age]],
-                        ignoreTicks |-> IgnoreDelay, deleteTicks |-> DeleteDelay] : s \in Seqs(BlockChoices, CaseBlocks) \ {<<>>} })
+                        ignoreTicks |-> IgnoreDelay, deleteTicks |-> DeleteDelay] : s \in CaseStates })
 ASSUME ndJsonSerialize(CasesFile, CaseSeq)
 =============================================================================
